@@ -406,7 +406,8 @@ Definition event_wf (P : val -> bool) (e : event) : bool :=
   match e with
   | EvResolve _ _ => true
   | EvCall f args kw _ =>
-      wfv P f && forallb (wfv P) args && match kw with Some k => wfv P k | None => true end
+      callable f && wfv P f && forallb (wfv P) args &&
+      match kw with Some k => wfv P k | None => true end
   | EvPersLoad p _ => wfv P p
   | EvSetState o s => wfv P o && wfv P s
   | EvSetItem o k v => wfv P o && (wfv P k && wfv P v)
@@ -458,4 +459,85 @@ Fixpoint fits (n : nat) (ns : list node) (bound : nat) (okname : string -> bool)
       | ESetLit l => forallb go l
       | EDictLit kvs => forallb gop kvs
       end
+  end.
+
+(* ---------- side conditions of the call fragment (C05_eval_agrees_partial) ---------- *)
+Fixpoint nassign (b : list stmt) : nat :=
+  match b with
+  | [] => 0
+  | SAssignV _ _ :: r => S (nassign r)
+  | _ :: r => nassign r
+  end.
+
+Fixpoint imports_of_body (b : list stmt) : list (string * string) :=   (* name -> module, newest first *)
+  match b with
+  | [] => []
+  | SImport m n :: r => (n, m) :: imports_of_body r
+  | _ :: r => imports_of_body r
+  end.
+
+(* a name may be used where it is already imported, or if it is never imported (a builtin) *)
+Definition okname_at (all : list string) (imps : list (string * string)) (s : string) : bool :=
+  mem_str s (map fst imps) || negb (mem_str s all).
+
+(* one statement, given the number of variables and the imports defined BEFORE it.
+   Not covered (false): x.update({...}) (SETITEMS on a stand-in), **kwargs (NEWOBJ_EX), and
+   `_var<i> = <global name>` (BUILD / SETITEM(S) applied to a global itself). *)
+Definition stmt_fits (n : nat) (ns : list node) (bound : nat) (all : list string)
+           (imps : list (string * string)) (st : stmt) : bool :=
+  let ft := fits n ns bound (okname_at all imps) in
+  match st with
+  | SImport _ nm => negb (prefix_str "_var" nm)
+  | SAssignV _ (ECall f args kw) =>
+      if is_pers_load f then
+        match args, kw with
+        | [pid], None => ft pid && negb (mem_str "UNPICKLER" (map fst imps))
+        | _, _ => false
+        end
+      else match kw with
+           | None => ft f && forallb ft args
+           | Some _ => false
+           end
+  | SAssignV _ (EVar j) => Nat.ltb j bound && negb (Nat.eqb n 0)   (* alias of an object *)
+  | SAssignV _ _ => false
+  | SResult e => ft e
+  | SExpr (ECall (EAttr (EVar i) a) [st] None) => (a =? "__setstate__") && Nat.ltb i bound && ft st
+  | SExpr _ => false
+  | SSetItemV i k e => Nat.ltb i bound && ft k && ft e
+  end.
+
+(* [body_fits n ns all b] (b newest first): every statement prints within depth n and uses only
+   variables assigned and names imported by EARLIER statements (or never-imported builtin names):
+   the observable core of "no mutation after capture" (finding D15) *)
+Fixpoint body_fits (n : nat) (ns : list node) (all : list string) (b : list stmt) : bool :=
+  match b with
+  | [] => true
+  | st :: r => stmt_fits n ns (nassign r) all (imports_of_body r) st && body_fits n ns all r
+  end.
+
+Definition is_result (st : stmt) : bool := match st with SResult _ => true | _ => false end.
+
+Definition defined_before_use (n : nat) (f : fk) : bool :=
+  body_fits n (nodes f) (map fst (imports_of_body (body f))) (body f) &&
+  match body f with
+  | SResult _ :: r => negb (existsb is_result r)
+  | _ => false
+  end.
+
+(* finding D14: two resolved globals with the same attribute name come from the same module *)
+Fixpoint resolves (l : list event) : list (string * string) :=
+  match l with
+  | [] => []
+  | EvResolve m n :: r => (m, n) :: resolves r
+  | _ :: r => resolves r
+  end.
+Definition distinct_attr_names (l : list event) : bool :=
+  let rs := resolves l in
+  forallb (fun a => forallb (fun b => negb (snd a =? snd b) || (gnorm (fst a) =? gnorm (fst b))) rs) rs.
+
+(* leaf predicate: opaque objects, and globals resolved in log L *)
+Definition resolved_in (L : list event) (v : val) : bool :=
+  match v with
+  | VGlobal m n => existsb (fun p => (fst p =? m) && (snd p =? n)) (resolves L)
+  | _ => true
   end.
